@@ -370,16 +370,20 @@ class Tensor:
         # Topological order all of the children in the graph 
         # (init gradients for those who are going to need it)
         ordered_nodes = []
-        visited_nodes = set()
-        def visit_node(node):
-            if node not in visited_nodes:
-                visited_nodes.add(node)
-                for child in node._children:
-                    if child.requires_grad and child._grad is None:
-                        child.zero_()
-                    visit_node(child)
+        visited_nodes = {self}
+        stack = [(self, iter(self._children))]
+        while stack: # iterative post-order DFS (a recursive one overflows the stack on deep graphs)
+            node, children = stack[-1]
+            for child in children:
+                if child.requires_grad and child._grad is None:
+                    child.zero_()
+                if child not in visited_nodes:
+                    visited_nodes.add(child)
+                    stack.append((child, iter(child._children)))
+                    break
+            else:
+                stack.pop()
                 ordered_nodes.append(node)
-        visit_node(self)
 
         # Go one tensor at a time and apply the chain rule to get its gradient
         self.grad = grad
